@@ -204,13 +204,13 @@ func permutations(n int) [][]int {
 }
 
 var c10Scenarios = map[string][]string{
-	"two-clients-one-host":   {"upd C1 H1", "upd C2 H1"},
-	"duplicate-update":       {"upd C1 H1,H2", "dup:upd C1 H1,H2"},
-	"same-client-twice":      {"upd C1 H1,H2", "upd C1 H1"},
-	"same-client-thrice":     {"upd C1 H1,H2", "upd C1 H1", "upd C1 H2"},
+	"two-clients-one-host": {"upd C1 H1", "upd C2 H1"},
+	"duplicate-update":     {"upd C1 H1,H2", "dup:upd C1 H1,H2"},
+	"same-client-twice":    {"upd C1 H1,H2", "upd C1 H1"},
+	"same-client-thrice":   {"upd C1 H1,H2", "upd C1 H1", "upd C1 H2"},
 	// request 0 holds C1's turn without touching its check-in time; request 1 queues behind it;
 	// request 2 only arrives once request 0 has returned
-	"queued-then-late": {"peer C1", "upd C1 H1,H2", "after0:upd C1 H1"},
+	"queued-then-late":       {"peer C1", "upd C1 H1,H2", "after0:upd C1 H1"},
 	"reconnect-vs-update":    {"conn C1", "upd C1 H1"},
 	"link-vs-update":         {"link W1 C2", "upd C2 H1,H2"},
 	"link-host-vs-update":    {"link W1 H1", "upd C1 H1"},
